@@ -41,6 +41,43 @@ Theorem c26_roles : forall a b, a <> b -> xorb (tracker_offerer a b) (tracker_of
 Proof. exact offerer_exclusive. Qed.
 Print Assumptions c26_roles.
 
+(* the role rule as enforced at run time by the negotiation loop: for ALL event
+   sequences (any signals in any order, any pion answers, failures and restarts)
+   the designated offerer never transmits an answer or a request for an offer,
+   the answerer never transmits an offer ... *)
+Theorem c26_offerer_never_answers : forall evs failed,
+  ~ In TxAnswer (nrun true failed evs) /\ ~ In TxRequestOffer (nrun true failed evs).
+Proof. exact offerer_never_answers. Qed.
+Print Assumptions c26_offerer_never_answers.
+
+Theorem c26_answerer_never_offers : forall evs failed, ~ In TxOffer (nrun false failed evs).
+Proof. exact answerer_never_offers. Qed.
+Print Assumptions c26_answerer_never_offers.
+
+(* ... a signal of the wrong role fails the session, which then stays silent ... *)
+Theorem c26_wrong_role_fails : forall ok,
+  nstep true false (RxSdp KOffer ok) = (true, [Fail]) /\
+  nstep false false (RxSdp KAnswer ok) = (true, [Fail]) /\
+  nstep false false RxRequestOffer = (true, [Fail]) /\
+  (forall offerer evs, ~ In Restart evs -> nrun offerer true evs = []).
+Proof. intros ok. repeat split. exact failed_silent. Qed.
+Print Assumptions c26_wrong_role_fails.
+
+(* ... so of two distinct peers at most one ever offers and at most one ever answers *)
+Theorem c26_one_offer_side : forall a b evs1 evs2 f1 f2,
+  a <> b ->
+  ~ (In TxOffer (nrun (tracker_offerer a b) f1 evs1) /\ In TxOffer (nrun (tracker_offerer b a) f2 evs2)) /\
+  ~ (In TxAnswer (nrun (tracker_offerer a b) f1 evs1) /\ In TxAnswer (nrun (tracker_offerer b a) f2 evs2)).
+Proof. exact one_offer_side. Qed.
+Print Assumptions c26_one_offer_side.
+
+(* non-vacuity: the roles do act *)
+Example c26_negotiation_example :
+  nrun true false [RxRequestOffer; LocalReady true; RxSdp KAnswer true] = [TxOffer] /\
+  nrun false false [LocalReady true; RxSdp KOffer true] = [TxRequestOffer; TxAnswer] /\
+  nrun true false [RxSdp KOffer true; LocalReady true; Restart; LocalReady true] = [Fail; TxOffer].
+Proof. repeat split; reflexivity. Qed.
+
 (* the quic session over the data channel is constrained to the signalled
    peer: whichever role, a link is accepted only from the tracker's peer *)
 Theorem c26_link : forall offerer p r, p <> [] -> link_accepted offerer p r = true -> r = p.
